@@ -271,7 +271,8 @@ func vC18WellFormedSig(p string) bool {
 }
 
 // got is sent with each +A hint of a block locator turned into +R<id>-, nothing else changed.
-// A well-formed permission hint of a well-formed locator (position >= 1 of its line) MUST be rewritten;
+// A well-formed permission hint of a well-formed locator in locator position (after the stream name,
+// before the first file token) MUST be rewritten;
 // for anything else that merely looks like it ("+A..." inside a malformed locator-like token, a
 // malformed "+A" hint) both the rewritten and the untouched form are accepted - the statement speaks
 // about permission hints +A<signature>@<expiry>, a stricter parser than the current regexp is as good.
@@ -288,18 +289,24 @@ func vC18Rel(sent, got, id string, remote bool) bool {
 		if len(st) != len(gt) {
 			return false
 		}
+		locpos := true // j is in locator position: every token between the stream name and j is locator-like
 		for j := range st {
-			if st[j] == gt[j] && !(j >= 1 && vC18WellFormedLocator(st[j])) {
+			locatorLike := j >= 1 && vC18IsHex32(st[j]) && len(st[j]) > 32 && st[j][32] == '+'
+			inLocPos := locpos && locatorLike
+			if j >= 1 && !locatorLike {
+				locpos = false
+			}
+			if st[j] == gt[j] && !(inLocPos && vC18WellFormedLocator(st[j])) {
 				continue // untouched, and nothing in it had to be rewritten
 			}
-			if !(j >= 1 && vC18IsHex32(st[j]) && len(st[j]) > 32 && st[j][32] == '+') {
+			if !locatorLike {
 				return false // not locator-like: must be untouched
 			}
 			sp, gp := strings.Split(st[j], "+"), strings.Split(gt[j], "+")
 			if len(sp) != len(gp) {
 				return false
 			}
-			wf := vC18WellFormedLocator(st[j])
+			wf := inLocPos && vC18WellFormedLocator(st[j]) // elsewhere (after a file token): both forms accepted
 			for k := range sp {
 				rewritten := "R" + id + "-" + strings.TrimPrefix(sp[k], "A")
 				switch {
